@@ -248,8 +248,32 @@ func c11prop(r *simkit.Run) {
 
 	var reached string
 	failMeter := false
+	// By draw the caller has a request-rewrite listener, and it does what the hook is for: it re-targets the outgoing
+	// request (joins the client's path under the server's, sends it to another port or scheme of the same machine),
+	// editing the URL it is shown or putting another in its place. The server a request was routed to is the one the
+	// listener was shown; the affinity cookie names that server, whatever the listener then makes of the URL.
+	listenerKind := rapid.SampledFrom([]int{0, 0, 0, 1, 2, 3}).Draw(rt, "rewrite-listener")
+	listen := func(_, newReq *http.Request) {
+		reached = keyOf(newReq.URL)
+		switch listenerKind {
+		case 1:
+			newReq.URL.Path = strings.TrimSuffix(newReq.URL.Path, "/") + "/joined/client/path"
+			newReq.URL.RawPath = ""
+		case 2:
+			newReq.URL = &url.URL{Scheme: "https", Host: "elsewhere.invalid:8443", Path: "/re-targeted"}
+		case 3:
+			newReq.URL.Host = "re-targeted-" + newReq.URL.Host
+			if newReq.URL.Scheme == "http" {
+				newReq.URL.Scheme = "https"
+			} else {
+				newReq.URL.Scheme = "http"
+			}
+		}
+	}
 	next := http.HandlerFunc(func(rw http.ResponseWriter, req *http.Request) {
-		reached = keyOf(req.URL)
+		if listenerKind == 0 {
+			reached = keyOf(req.URL)
+		}
 		rw.WriteHeader(http.StatusOK)
 	})
 	sticky := roundrobin.NewStickySession("aff").SetCookieValue(cv)
@@ -266,20 +290,28 @@ func c11prop(r *simkit.Run) {
 	if viaRB {
 		rr, _ := roundrobin.New(next)
 		inner = rr
-		rb, err := roundrobin.NewRebalancer(rr, roundrobin.RebalancerStickySession(sticky),
+		rbOpts := []roundrobin.RebalancerOption{roundrobin.RebalancerStickySession(sticky),
 			roundrobin.RebalancerMeter(func() (roundrobin.Meter, error) {
 				if failMeter {
 					failMeter = false
 					return nil, errMeter
 				}
 				return neverReady{}, nil
-			}))
+			})}
+		if listenerKind != 0 {
+			rbOpts = append(rbOpts, roundrobin.RebalancerRequestRewriteListener(listen))
+		}
+		rb, err := roundrobin.NewRebalancer(rr, rbOpts...)
 		if err != nil {
 			rt.Fatalf("rebalancer: %v", err)
 		}
 		handler, admin = rb, rb
 	} else {
-		rr, err := roundrobin.New(next, roundrobin.EnableStickySession(sticky))
+		rrOpts := []roundrobin.LBOption{roundrobin.EnableStickySession(sticky)}
+		if listenerKind != 0 {
+			rrOpts = append(rrOpts, roundrobin.RoundRobinRequestRewriteListener(listen))
+		}
+		rr, err := roundrobin.New(next, rrOpts...)
 		if err != nil {
 			rt.Fatalf("rr: %v", err)
 		}
